@@ -5,6 +5,7 @@ import (
 	"encoding/json"
 	"errors"
 	"fmt"
+	"google.golang.org/protobuf/proto"
 	"runtime/debug"
 	"sort"
 	"strings"
@@ -76,6 +77,11 @@ type gateCase struct {
 	HasPrev bool     `json:"has_prev,omitempty"`
 	// SameObject: every non-nil position receives one and the same tensor object (a value wired to several inputs)
 	SameObject bool `json:"same_object,omitempty"`
+	// Rank0: the supplied tensors are rank-0 (scalars) instead of vectors of two elements
+	Rank0 bool `json:"rank0,omitempty"`
+	// InitRep: index+1 into repCases(): the operator object is initialised from that case's node (its attributes) before
+	// the gate is asked - the state Model.Run always puts an operator in (0 = freshly looked up, never initialised)
+	InitRep int `json:"init_rep,omitempty"`
 }
 
 func (g *gateCase) run() (v *hx.Violation) {
@@ -88,6 +94,14 @@ func (g *gateCase) run() (v *hx.Violation) {
 	op, err := opset13.GetOperator(g.Op)
 	if err != nil {
 		return mk("refused", "registered name does not resolve: "+err.Error())
+	}
+	if g.InitRep > 0 {
+		rcs := repCases()
+		if g.InitRep-1 < len(rcs) && rcs[g.InitRep-1].Op == g.Op {
+			if ierr := op.Init(hx.NodeForCase(rcs[g.InitRep-1].opCase())); ierr != nil {
+				return hx.OK("init-refused")
+			}
+		}
 	}
 	min, max := op.GetMinInputs(), op.GetMaxInputs()
 	tc := op.GetInputTypeConstraints()
@@ -131,7 +145,11 @@ func (g *gateCase) run() (v *hx.Violation) {
 			continue
 		}
 		dt, _ := ref.DTFromName(d)
-		in[i] = hx.ToG(ref.Distinct(dt, []int{2}))
+		shape := []int{2}
+		if g.Rank0 {
+			shape = []int{}
+		}
+		in[i] = hx.ToG(ref.Distinct(dt, shape))
 		snaps[i] = hx.Snapshot(in[i])
 	}
 	if g.SameObject {
@@ -665,6 +683,7 @@ func checkC15(c *hx.Checker) {
 	}
 	// the same lists (homogeneous rows of every length) as sub-slices with spare capacity, and as the second request
 	// gated by one operator object after a longer / shorter / over-long / wrongly typed first request
+	repCasesCached := repCases()
 	nPlain := len(cases)
 	for i := 0; i < nPlain; i++ {
 		g := cases[i]
@@ -682,6 +701,16 @@ func checkC15(c *hx.Checker) {
 		sp := g
 		sp.Spare = true
 		cases = append(cases, sp)
+		r0 := g
+		r0.Rank0 = true
+		cases = append(cases, r0)
+		for ri, rc := range repCasesCached {
+			if rc.Op == g.Op && len(rc.Attrs) > 0 {
+				iv := g
+				iv.InitRep = ri + 1
+				cases = append(cases, iv)
+			}
+		}
 		if len(g.DTypes) >= 2 {
 			so := g
 			so.SameObject = true
@@ -716,6 +745,12 @@ func checkC15(c *hx.Checker) {
 	c.ParallelFor(len(cases), func(i int) {
 		g := cases[i]
 		id := fmt.Sprintf("gate/%s/%v", g.Op, g.DTypes)
+		if g.Rank0 {
+			id += "/rank-0-tensors"
+		}
+		if g.InitRep > 0 {
+			id += fmt.Sprintf("/initialised-from-rep%d", g.InitRep-1)
+		}
 		if g.Spare {
 			id += "/spare-capacity"
 		}
@@ -770,34 +805,50 @@ func checkC15(c *hx.Checker) {
 			g.Node = []*onnx.NodeProto{hx.Node(name, ins, []string{"y"}, attrs)}
 			mb := hx.Marshal(hx.Model(g, 13))
 			inRange := n >= min && n <= max
-			id := fmt.Sprintf("gate-through-model/%s/n=%d", name, n)
-			c.Case(hx.CaseInfo{ID: id, Tags: []string{"op=" + name, "gate", "through-model", fmt.Sprintf("in-range=%v", inRange)}, NonTrivial: true}, func() (v *hx.Violation) {
-				mk := func(kind, detail string) *hx.Violation {
-					return &hx.Violation{Kind: kind, Detail: detail, Replay: map[string]any{"replay_kind": "gate-model", "model_b64": base64.StdEncoding.EncodeToString(mb), "n": n, "in_range": inRange}}
+			for _, dangling := range []bool{false, true} {
+				dangling := dangling
+				id := fmt.Sprintf("gate-through-model/%s/n=%d", name, n)
+				if dangling {
+					// the node is a side branch: nothing reads its output and the graph does not return it; it is still
+					// a node of the graph and its input list is still checked
+					g2 := proto.Clone(g).(*onnx.GraphProto)
+					g2.Input = append(g2.Input, hx.ValueInfo("main_in", ref.F32, hx.FixedDims([]int{2})))
+					g2.Node = append([]*onnx.NodeProto{hx.Node("Relu", []string{"main_in"}, []string{"main_out"}, nil)}, g2.Node...)
+					g2.Output = []*onnx.ValueInfoProto{hx.ValueInfoNoShape("main_out")}
+					mb = hx.Marshal(hx.Model(g2, 13))
+					feed = cloneFeed(feed)
+					feed["main_in"] = hx.ToG(ref.Distinct(ref.F32, []int{2}))
+					id += "/dangling-side-branch"
 				}
-				if inRange {
-					// what the operator does with well-counted but arbitrary operands is not this property's business
-					return hx.OK("in-range/not-judged")
-				}
-				defer func() {
-					if p := recover(); p != nil {
-						v = mk("panic", fmt.Sprintf("Run panicked: %v :: %s", p, firstLines(string(debug.Stack()), 12)))
+				mb, feed := mb, feed
+				c.Case(hx.CaseInfo{ID: id, Tags: []string{"op=" + name, "gate", "through-model", fmt.Sprintf("in-range=%v", inRange)}, NonTrivial: true}, func() (v *hx.Violation) {
+					mk := func(kind, detail string) *hx.Violation {
+						return &hx.Violation{Kind: kind, Detail: detail, Replay: map[string]any{"replay_kind": "gate-model", "model_b64": base64.StdEncoding.EncodeToString(mb), "n": n, "in_range": inRange}}
 					}
-				}()
-				m, err := gonnx.NewModelFromBytes(mb)
-				if err != nil {
-					return mk("refused", "model does not load: "+err.Error())
-				}
-				_, rerr := m.Run(feed)
-				if rerr == nil {
-					return mk("not-refused", fmt.Sprintf("a %s node with %d inputs (allowed %d..%d) ran", name, n, min, max))
-				}
-				var ie *ops.InputError
-				if !errors.As(rerr, &ie) {
-					return mk("wrong-error", fmt.Sprintf("Run failed with %T (%v), expected the input error", rerr, rerr))
-				}
-				return hx.OK("rejected-through-model")
-			})
+					if inRange {
+						// what the operator does with well-counted but arbitrary operands is not this property's business
+						return hx.OK("in-range/not-judged")
+					}
+					defer func() {
+						if p := recover(); p != nil {
+							v = mk("panic", fmt.Sprintf("Run panicked: %v :: %s", p, firstLines(string(debug.Stack()), 12)))
+						}
+					}()
+					m, err := gonnx.NewModelFromBytes(mb)
+					if err != nil {
+						return mk("refused", "model does not load: "+err.Error())
+					}
+					_, rerr := m.Run(feed)
+					if rerr == nil {
+						return mk("not-refused", fmt.Sprintf("a %s node with %d inputs (allowed %d..%d) ran", name, n, min, max))
+					}
+					var ie *ops.InputError
+					if !errors.As(rerr, &ie) {
+						return mk("wrong-error", fmt.Sprintf("Run failed with %T (%v), expected the input error", rerr, rerr))
+					}
+					return hx.OK("rejected-through-model")
+				})
+			}
 		}
 	}
 	// unknown names
@@ -887,4 +938,12 @@ func zeroFeedFor(b []byte) map[string]*ref.T {
 		feed[in.GetName()] = ref.Distinct(dt, []int{2})
 	}
 	return feed
+}
+
+func cloneFeed(f gonnx.Tensors) gonnx.Tensors {
+	o := gonnx.Tensors{}
+	for k, v := range f {
+		o[k] = v
+	}
+	return o
 }
